@@ -13,8 +13,8 @@
 EXTENDS Ty, TLC, Json, IOUtils
 
 Rec == ndJsonDeserialize(IOEnv.TRACE)
-Which == IOEnv.UNIVERSE                   \* "1" or "2"
-U == IF Which = "1" THEN Depth1 ELSE Depth2
+Which == IOEnv.UNIVERSE                   \* "1", "2" or "3"
+U == IF Which = "1" THEN Depth1 ELSE IF Which = "2" THEN Depth2 ELSE Depth3
 
 VARIABLE i
 vars == <<i>>
